@@ -6,6 +6,7 @@ import RisorModel.C04.CloCertOracle
 import RisorModel.C04.SeqCertOracle
 import RisorModel.C04.MultiVarOracle
 import RisorModel.C04.ObsOracle
+import RisorModel.C04.LitOracle
 /-! Line-protocol front end of the C04 model.
   `stack <main|fn> <instruction text>` → `accept <max height> <n reachable>` | `reject <offset: reason>` | `error <decode problem>`
   `cert <main|fn> <instruction text>` → the accepted certificate itself (heights per slot)
@@ -15,7 +16,9 @@ import RisorModel.C04.ObsOracle
   `multi …`, `multicode …` → see MultiVarOracle.lean (multi-variable statements `a, _, c := e`: the tail the model of
       compileMultiVar emits against the real one, what the real instructions leave behind, whole code objects)
   `tmpl …`, `trace …` → see ObsOracle.lean (template strings with empty interpolations: compileString's code against the real
-      window; observed runs of one frame activation: the real heights against the model machine, the Spec `neutral`) -/
+      window; observed runs of one frame activation: the real heights against the model machine, the Spec `neutral`)
+  `lit …` → see LitOracle.lean (list literals of every length and membership tests: compileList / compileIn / compileNotIn
+      against the real window, what the real instructions leave behind) -/
 namespace Risor.C04
 
 def handle : List String → String
@@ -51,6 +54,7 @@ def handle : List String → String
   | "multicode" :: rest => MV.handleMultiCode rest
   | "tmpl" :: rest => Obs.handleTmpl rest
   | "trace" :: rest => Obs.handleTrace rest
+  | "lit" :: rest => Lit.handleLit rest
   | _ => "error\tunknown-request"
 
 end Risor.C04
